@@ -32,9 +32,8 @@ def root_local(fn, pr, op):
     return l
 
 
-def regex_literal(pr, op):
-    """literal of the Regex value used as receiver: unwrap(Regex::new(lit))"""
-    t = P.strip(pr.operand(op), calls=False)
+def _regex_new_literal(t):
+    t = P.strip(t, calls=False)
     if t[0] == "call" and t[1].rsplit("::", 1)[-1] in ("unwrap", "expect") and t[2]:
         t = P.strip(t[2][0], calls=False)
     if t[0] == "call" and t[1] == "regex::Regex::new" and t[2]:
@@ -42,6 +41,30 @@ def regex_literal(pr, op):
         if lit[0] == "str":
             return lit[1]
     return None
+
+
+def regex_literal(pr, op, F=None):
+    """literal of the Regex value used as receiver: `Regex::new(lit).unwrap()` directly, or a write-once cache of it
+    (`OnceLock::get_or_init(|| Regex::new(lit).unwrap())`, `static X: LazyLock<Regex> = LazyLock::new(|| …)`)."""
+    t = P.strip(pr.operand(op), calls=False)
+    lit = _regex_new_literal(t)
+    if lit is not None or F is None:
+        return lit
+    for _ in range(4):
+        if t[0] == "call" and t[1].rsplit("::", 1)[-1] in ("deref", "force", "borrow", "as_ref") and t[2]:
+            t = P.strip(t[2][0], calls=False)
+            continue
+        break
+    clo = None
+    if t[0] == "static":
+        clo = F.fns.get(t[1] + "::{closure#0}")
+    elif t[0] == "call" and t[1].rsplit("::", 1)[-1] in ("get_or_init", "get_or_insert_with") and len(t[2]) == 2:
+        c = t[2][1]
+        if c[0] == "agg" and c[1].startswith("closure:"):
+            clo = F.fns.get(c[1][len("closure:"):])
+    if clo is None or clo.cfg.has_loops():
+        return None
+    return _regex_new_literal(P.Prov(clo).local(0))
 
 
 class StrFacts:
@@ -100,7 +123,7 @@ class StrFacts:
             name = t["callee"].get("name")
             path = I.callee_path(t)
             if path == "regex::Regex::is_match" and tr:
-                lit = regex_literal(pr, t["args"][0])
+                lit = regex_literal(pr, t["args"][0], getattr(fn, "facts", None))
                 L = root_local(fn, pr, t["args"][1])
                 if lit is None or L is None:
                     return
